@@ -14,8 +14,10 @@ NAME = "C02"
 LEVEL = "exploration"
 
 PLAN = {
-    "quick": {"max_n": 8, "seeded": 2400, "chunk": 24, "budget": None, "tie_cap": 48},
-    "thorough": {"max_n": 10, "seeded": None, "chunk": 64, "budget": 600, "tie_cap": 64},
+    "quick": {"max_n": 8, "seeded": 4000, "chunk": 24, "budget": None, "tie_cap": 48,
+              "topology": (4, ["ones", "alt12", "falling"], [0, 1])},
+    "thorough": {"max_n": 10, "seeded": None, "chunk": 64, "budget": 600, "tie_cap": 64,
+                 "topology": (5, ["ones", "twos", "alt12", "alt21", "rising", "falling"], [0, 1])},
 }
 
 ASSUMPTIONS = [
@@ -31,11 +33,17 @@ _MATCHINGS = {}
 
 
 def matchings(max_n):
+    """The enumerated part of the workload: every matching on <= max_n positions as (n, pairs) and, appended, every
+    stem topology of the tier's plan as ("topology", structure)."""
     if max_n not in _MATCHINGS:
         out = []
         for n in range(1, max_n + 1):
             for m in structures.all_matchings(n):
                 out.append((n, m))
+        tier = [t for t, p in PLAN.items() if p["max_n"] == max_n][0]
+        k, regimes, gaps = PLAN[tier]["topology"]
+        for st in structures.topology_structures(k, regimes, gaps):
+            out.append(("topology", st))
         _MATCHINGS[max_n] = out
     return _MATCHINGS[max_n]
 
@@ -57,6 +65,8 @@ def gen_structure(seed, tier, i):
     ms = matchings(plan["max_n"])
     if i < len(ms):
         n, m = ms[i]
+        if n == "topology":
+            return m
         return {"triples": structures.matching_triples(n, m), "family": "matching:%d" % n}
     s = rng.stream(NAME, tier, seed, i, "structure")
     mode = s.random()
@@ -330,8 +340,10 @@ def coverage_doc(results, tier):
                 "process, and a sample through the real CBC binary." % plan["tie_cap"],
         "samples": samples,
         "exhaustive": False,
-        "exhaustive_part": "every perfect-or-partial matching on 1..%d positions (%d structures) is included"
-                           % (plan["max_n"], len(matchings(plan["max_n"]))),
+        "exhaustive_part": "every perfect-or-partial matching on 1..%d positions and every arm order (nesting/crossing "
+                           "topology) of 1..%d stems x length regimes %s x uniform gaps %s: %d structures in all"
+                           % (plan["max_n"], plan["topology"][0], plan["topology"][1], plan["topology"][2],
+                              len(matchings(plan["max_n"]))),
         "structures": len(results),
         "knotted_structures": knotted,
         "structures_with_several_optima": multi,
